@@ -15,18 +15,18 @@ open NmVerif
 
 /-- `enum SIMD : int` of index/common.hpp; `PAD_k = k` (1 ≤ k) -/
 abbrev Tag := Int
-def Tag.NOP : Tag := -999
-def Tag.ACCUMULATE_PACKED : Tag := -4
-def Tag.BROADCAST : Tag := -3
-def Tag.SCALAR : Tag := -2
-def Tag.ACCUMULATE : Tag := -1
-def Tag.PACKED : Tag := 0
+def Tag.NOP : Int := -999
+def Tag.ACCUMULATE_PACKED : Int := -4
+def Tag.BROADCAST : Int := -3
+def Tag.SCALAR : Int := -2
+def Tag.ACCUMULATE : Int := -1
+def Tag.PACKED : Int := 0
 /-- `static_cast<SIMD>(k)` -/
-def Tag.PAD (k : Nat) : Tag := (k : Int)
+def Tag.PAD (k : Nat) : Int := (k : Int)
 
 /-- `nmtools_tuple<SIMD,index_t>` -/
 structure TIdx where
-  tag : Tag
+  tag : Int
   off : Nat
 deriving Repr, DecidableEq
 
